@@ -43,3 +43,64 @@ def analyse(code):
         if isinstance(n, ast.Call):
             calls += 1
     return {"stmts": stmts, "nodes": sorted(nodes), "calls": calls, "skel": skeleton(tree)}
+
+
+def _dotted(node):
+    if isinstance(node, ast.Name):
+        return node.id
+    if isinstance(node, ast.Attribute):
+        b = _dotted(node.value)
+        return (b + "." + node.attr) if b else ""
+    return ""
+
+
+def program(code):
+    """generated source -> {"params": [...], "stmts": [{target, fn, args, kwout}]} for Alias.tla (outermost function)"""
+    tree = ast.parse(code)
+    fdef = [n for n in tree.body if isinstance(n, ast.FunctionDef)][-1]
+    params = [a.arg for a in fdef.args.args]
+    stmts = []
+
+    def name_of(n):
+        return n.id if isinstance(n, ast.Name) else ""
+
+    def from_value(target, v):
+        if isinstance(v, ast.Call):
+            fn = _dotted(v.func)
+            kwout = ""
+            for kw in v.keywords:
+                if kw.arg == "out":
+                    kwout = name_of(kw.value)
+            args = []
+            for a in v.args:
+                if isinstance(a, (ast.List, ast.Tuple)):
+                    args.extend(name_of(e) for e in a.elts)      # e.g. np.concatenate([a, b]): not a view function, harmless
+                else:
+                    args.append(name_of(a))
+            stmts.append({"target": target, "fn": fn, "args": args, "kwout": kwout})
+        elif isinstance(v, ast.Subscript):
+            stmts.append({"target": target, "fn": "getitem", "args": [name_of(v.value)], "kwout": ""})
+        elif isinstance(v, ast.Attribute):
+            stmts.append({"target": target, "fn": "getattr", "args": [name_of(v.value)], "kwout": ""})
+        elif isinstance(v, ast.Name):
+            stmts.append({"target": target, "fn": "getitem", "args": [v.id], "kwout": ""})
+        elif isinstance(v, (ast.Tuple, ast.List)):
+            stmts.append({"target": target, "fn": "tuple", "args": [name_of(e) for e in v.elts], "kwout": ""})
+        else:
+            stmts.append({"target": target, "fn": "other", "args": [], "kwout": ""})
+
+    for s in fdef.body:
+        if isinstance(s, ast.Assign):
+            t = s.targets[0]
+            if isinstance(t, ast.Subscript):
+                stmts.append({"target": "", "fn": "setitem", "args": [name_of(t.value)], "kwout": ""})
+            elif isinstance(t, (ast.Tuple, ast.List)):
+                for e in t.elts:
+                    from_value(name_of(e), s.value)
+            else:
+                from_value(name_of(t), s.value)
+        elif isinstance(s, ast.Expr):
+            from_value("", s.value)
+        elif isinstance(s, ast.AugAssign):
+            stmts.append({"target": "", "fn": "setitem", "args": [name_of(s.target)], "kwout": ""})
+    return {"params": params, "stmts": stmts}
